@@ -5,6 +5,7 @@ import (
 	"os"
 
 	"verif/sim/internal/common"
+	"verif/sim/internal/enga"
 	"verif/sim/internal/engc"
 )
 
@@ -15,6 +16,8 @@ func runCheck(prop, tier string) int {
 	switch prop {
 	case "C17", "C18", "C19":
 		return engc.Check(prop, tier)
+	case "C03", "C04":
+		return enga.Check(prop, tier)
 	}
 	fmt.Fprintf(os.Stderr, "no engine for %s\n", prop)
 	return 2
@@ -26,12 +29,20 @@ func runReplay(path string) int {
 	switch r.Engine {
 	case "C":
 		return engc.Replay(r)
+	case "A":
+		return enga.Replay(r)
 	}
 	fmt.Fprintf(os.Stderr, "unknown engine %q in replay file\n", r.Engine)
 	return 2
 }
 
 func runSelftest(which string, args []string) int {
+	switch which {
+	case "warm":
+		b := common.Prepare("warm", true)
+		fmt.Printf("built %s and %s (%d seam sites)\n", b.WireSim, b.WireReal, len(b.Sites))
+		return 0
+	}
 	return 2
 }
 
